@@ -1,5 +1,6 @@
 """C14 - packet headers survive build->bytes->parse with valid lengths and checksums."""
 from symx.run import Obligation
+from props import env
 
 CLAIM = {
  'technique': "bounded symbolic execution of the real packet library with z3 (symx): checksum vs RFC 1071 reference over LIA, per-path solver verdicts",
@@ -56,6 +57,388 @@ def h_checksum(ctx, n, mode):
   ctx.check('range16', ctx.And(r >= 0, r <= 0xffff))
 
 
+
+# ------------------------------------------------------------------------------------------------------------------------
+# O2/O3: header stacks   build -> bytes -> parse -> bytes
+def be(v, n):
+  return [(v >> (8 * (n - 1 - i))) & 0xff for i in range(n)]
+
+
+def num(bs):
+  r = 0
+  for b in bs: r = (r << 8) | b
+  return r
+
+
+class L:
+  """one layer of an assembled packet: the object, the fields that must survive, where its header starts and how long it is"""
+  def __init__(self, obj, fields, hlen):
+    self.obj = obj; self.fields = fields; self.hlen = hlen; self.off = None
+
+
+class B:
+  """builders; every field is symbolic over its wire width unless it selects the shape of the packet"""
+  def __init__(self, ctx):
+    self.ctx = ctx; self.P = ctx.pox('pox.lib.packet'); self.A = ctx.pox('pox.lib.addresses'); self.k = 0
+    self.pu = ctx.pox('pox.lib.packet.packet_utils')
+  def n(self, name):
+    self.k += 1; return '%s%d' % (name, self.k)
+  def i(self, name, bits): return self.ctx.int(self.n(name), 0, (1 << bits) - 1)
+  def mac(self, name): return self.A.EthAddr(self.ctx.bytes(self.n(name), 6))
+  def ip(self, name): return self.A.IPAddr(self.ctx.bytes(self.n(name), 4))
+  def eth(self, type_):
+    e = self.P.ethernet(); e.dst = self.mac('edst'); e.src = self.mac('esrc'); e.type = type_
+    return L(e, dict(dst=e.dst, src=e.src, type=type_), 14)
+  def vlan(self, type_):
+    v = self.P.vlan(); v.pcp = self.i('pcp', 3); v.cfi = self.i('cfi', 1); v.id = self.i('vid', 12); v.eth_type = type_
+    return L(v, dict(pcp=v.pcp, cfi=v.cfi, id=v.id, eth_type=type_), 4)
+  def ipv4(self, proto, opt=0, frag=False):
+    p = self.P.ipv4(); p.tos = self.i('tos', 8); p.id = self.i('ipid', 16); p.flags = self.i('ipflags', 3); p.ttl = self.i('ttl', 8)
+    p.frag = self.i('frag', 13) if frag else 0
+    p.protocol = proto; p.srcip = self.ip('nsrc'); p.dstip = self.ip('ndst')
+    if opt:
+      p.raw_options = self.ctx.bytes(self.n('ipopt'), opt); p.hl = 5 + opt // 4
+    return L(p, dict(v=4, hl=p.hl, tos=p.tos, id=p.id, flags=p.flags, frag=p.frag, ttl=p.ttl, protocol=proto, srcip=p.srcip, dstip=p.dstip,
+                     raw_options=p.raw_options), 20 + opt)
+  def udp(self, sport=None, dport=None):
+    u = self.P.udp(); u.srcport = self.i('sport', 16) if sport is None else sport; u.dstport = self.i('dport', 16) if dport is None else dport
+    for special in (67, 68, 53, 5353, 520, 4789):      # ports whose payload POX parses further have their own stacks
+      if sport is None: self.ctx.assume(u.srcport != special)
+      if dport is None: self.ctx.assume(u.dstport != special)
+    return L(u, dict(srcport=u.srcport, dstport=u.dstport), 8)
+  def tcp(self, opts=()):
+    P = self.P
+    t = P.tcp(); t.srcport = self.i('sport', 16); t.dstport = self.i('dport', 16); t.seq = self.i('seq', 32); t.ack = self.i('ack', 32)
+    t.res = self.i('res', 4); t.flags = self.i('tflags', 8); t.win = self.i('win', 16); t.urg = self.i('urg', 16)
+    to = P.tcp_opt; ol = []; olen = 0
+    for o in opts:
+      if o == 'nop': ol.append(to(to.NOP, None)); olen += 1
+      elif o == 'mss': ol.append(to(to.MSS, self.i('mss', 16))); olen += 4
+      elif o == 'ws': ol.append(to(to.WSOPT, self.i('ws', 8))); olen += 3
+      elif o == 'sackperm': ol.append(to(to.SACKPERM, None)); olen += 2
+      elif o == 'ts': ol.append(to(to.TSOPT, (self.i('tsv', 32), self.i('tse', 32)))); olen += 10
+      elif o == 'sack1': ol.append(to(to.SACK, [(self.i('sl', 32), self.i('sr', 32))])); olen += 10
+      elif o == 'unk': ol.append(to(200, self.ctx.bytes(self.n('unk'), 2))); olen += 4
+      else: raise ValueError(o)
+    t.options = ol
+    hlen = 20 + (olen + 3) // 4 * 4
+    return L(t, dict(srcport=t.srcport, dstport=t.dstport, seq=t.seq, ack=t.ack, off=hlen // 4, res=t.res, flags=t.flags, win=t.win, urg=t.urg,
+                     options=[(o.type, o.val) for o in ol]), hlen)
+  def icmp(self, type_, code=None):
+    c = self.P.icmp(); c.type = type_; c.code = self.i('icode', 8) if code is None else code
+    return L(c, dict(type=type_, code=c.code), 4)
+  def echo(self):
+    e = self.P.echo(); e.id = self.i('eid', 16); e.seq = self.i('eseq', 16)
+    return L(e, dict(id=e.id, seq=e.seq), 4)
+  def unreach(self):
+    u = self.P.unreach(); u.unused = self.i('unused', 16); u.next_mtu = self.i('mtu', 16)
+    return L(u, dict(unused=u.unused, next_mtu=u.next_mtu), 4)
+  def time_exceeded(self):
+    u = self.P.time_exceeded(); u.unused = self.i('unused', 32)
+    return L(u, dict(unused=u.unused), 4)
+  def arp(self):
+    a = self.P.arp(); a.opcode = self.i('op', 16); a.hwsrc = self.mac('hs'); a.hwdst = self.mac('hd'); a.protosrc = self.ip('ps'); a.protodst = self.ip('pd')
+    return L(a, dict(hwtype=1, prototype=0x800, hwlen=6, protolen=4, opcode=a.opcode, hwsrc=a.hwsrc, hwdst=a.hwdst, protosrc=a.protosrc, protodst=a.protodst), 28)
+  def mpls(self, bos):
+    m = self.P.mpls(); m.label = self.i('label', 20); m.tc = self.i('tc', 3); m.s = bos; m.ttl = self.i('mttl', 8)
+    return L(m, dict(label=m.label, tc=m.tc, s=bos, ttl=m.ttl), 4)
+  def llc(self, snap=None, two_byte_control=False):
+    l = self.P.llc(); ctx = self.ctx
+    if snap is None:
+      l.dsap = self.i('dsap', 8); l.ssap = self.i('ssap', 8)
+      ctx.assume(ctx.Not(ctx.And((l.dsap & 0xfe) == 0xaa, (l.ssap & 0xfe) == 0xaa)))
+    else:
+      l.dsap = 0xaa; l.ssap = 0xaa; l.oui = ctx.bytes(self.n('oui'), 3) if snap == 'sym' else snap[0]; l.eth_type = self.i('snaptype', 16) if snap == 'sym' else snap[1]
+    if two_byte_control:
+      l.control = self.i('control', 16); ctx.assume(ctx.Or((l.control & 1) == 0, (l.control & 3) == 2)); hl = 4
+    else:
+      l.control = self.i('control', 8); ctx.assume((l.control & 3) == 3); hl = 3
+    if snap == 'sym': ctx.assume(ctx.Not(ctx.Eq(l.oui, b'\0\0\0')))      # OUI 0 = encapsulated ethertype: stacks snap_ip / snap_other
+    if snap is not None: hl += 5
+    l.length = hl
+    f = dict(dsap=l.dsap, ssap=l.ssap, control=l.control)
+    if snap is not None: f.update(oui=l.oui, eth_type=l.eth_type)
+    return L(l, f, hl)
+
+
+def _ipv6_builders():
+  def ip6(self, name): return self.A.IPAddr6(self.ctx.bytes(self.n(name), 16), raw=True)
+  def ipv6(self, nh, ehs=()):
+    I6 = self.ctx.pox('pox.lib.packet.ipv6')
+    p = self.P.ipv6(); p.tc = self.i('tc6', 8); p.flow = self.i('flow', 20); p.hop_limit = self.i('hlim', 8)
+    p.srcip = ip6(self, 'src6'); p.dstip = ip6(self, 'dst6')
+    hdrs = []; elen = 0
+    kinds = {'hop': (I6.HopByHopOptions, 0), 'route': (I6.Routing, 43), 'frag': (I6.Fragment, 44), 'dest': (I6.DestinationOptions, 60)}
+    chain = [kinds[e.split(':')[0]][1] for e in ehs] + [nh]
+    for j, e in enumerate(ehs):
+      kind, _, blen = e.partition(':')
+      cls = kinds[kind][0]
+      if kind == 'frag':
+        h = cls(raw_body=self.ctx.bytes(self.n('fragbody'), 7)); elen += 8
+      else:
+        blen = int(blen or 6)
+        h = cls(raw_body=self.ctx.bytes(self.n(kind + 'body'), blen), payload_length=blen); elen += 2 + blen
+      h.next_header_type = chain[j + 1]
+      hdrs.append(h)
+    p.extension_headers = hdrs
+    p.next_header_type = chain[0]
+    l = L(p, dict(v=6, tc=p.tc, flow=p.flow, hop_limit=p.hop_limit, srcip=p.srcip, dstip=p.dstip, next_header_type=chain[0],
+                  extension_headers=[(type(h).__name__, h.next_header_type, h.raw_body) for h in hdrs]), 40 + elen)
+    l.upper = nh
+    return l
+  def icmpv6(self, type_, code=None):
+    c = self.P.icmpv6(); c.type = type_; c.code = self.i('icode', 8) if code is None else code
+    return L(c, dict(type=type_, code=c.code), 4)
+  def echo6(self):
+    m = self.ctx.pox('pox.lib.packet.icmpv6')
+    e = m.echo(); e.id = self.i('eid', 16); e.seq = self.i('eseq', 16)
+    return L(e, dict(id=e.id, seq=e.seq), 4)
+  B.ipv6 = ipv6; B.icmpv6 = icmpv6; B.echo6 = echo6
+_ipv6_builders()
+
+
+def _more_builders():
+  def igmp(self, vt):
+    g = self.P.igmp(); g.ver_and_type = vt; g.max_response_time = self.i('mrt', 8); g.address = self.ip('group')
+    g.extra = self.ctx.bytes(self.n('extra'), self.extra); self.extra_used = True
+    return L(g, dict(ver_and_type=vt, max_response_time=g.max_response_time, address=g.address, extra=g.extra), 8 + self.extra)
+  def igmp3(self, nrec, nsrc=1, aux=0):
+    m = self.ctx.pox('pox.lib.packet.igmp')
+    g = self.P.igmp(); g.ver_and_type = 0x22; recs = []; ln = 8
+    for r in range(nrec):
+      rec = m.GroupRecord(type=self.i('rtype', 8), address=self.ip('raddr'), source_addresses=[self.ip('rsrc') for _ in range(nsrc)],
+                          aux=self.ctx.bytes(self.n('aux'), aux))
+      recs.append(rec); ln += 8 + 4 * nsrc + aux
+    g.group_records = recs
+    g.extra = self.ctx.bytes(self.n('extra'), self.extra); self.extra_used = True
+    return L(g, dict(ver_and_type=0x22, extra=g.extra, group_records=[(r.type, r.address, list(r.source_addresses), r.aux) for r in recs]), ln + self.extra)
+  def vxlan(self, with_vni=True):
+    v = self.P.vxlan(); v.vni = self.i('vni', 24) if with_vni else None
+    return L(v, dict(vni=v.vni), 8)
+  def gre(self, type_, key=False, seq=False, csum=False):
+    g = self.P.gre(); g.type = type_
+    g.key = self.i('grekey', 32) if key else None; g.seq = self.i('greseq', 32) if seq else None
+    g.strict_source_route = bool(self.ctx.bool(self.n('ssr'))); g.recursion = self.i('recur', 3)
+    if csum: g.csum = True; g.route_offset = self.i('roff', 16)
+    f = dict(type=type_, key=g.key, seq=g.seq, strict_source_route=g.strict_source_route, recursion=g.recursion, ver=0)
+    if csum: f['route_offset'] = g.route_offset
+    l = L(g, f, 4 + (4 if key else 0) + (4 if seq else 0) + (4 if csum else 0)); l.csum = csum
+    return l
+  def rip(self, nent):
+    m = self.ctx.pox('pox.lib.packet.rip')
+    r = self.P.rip(); r.command = self.i('ripcmd', 8); r.version = self.i('ripver', 8); ents = []
+    for k in range(nent):
+      e = m.RIPEntry(address_family=self.i('af', 16), route_tag=self.i('tag', 16), ip=self.ip('rip'), netmask=self.ip('rmask'), next_hop=self.ip('rnh'),
+                     metric=self.i('metric', 31))
+      ents.append(e)
+    r.entries = ents
+    return L(r, dict(command=r.command, version=r.version, entries=[(e.address_family, e.route_tag, e.ip, e.netmask, e.next_hop, e.metric) for e in ents]), 4 + 20 * nent)
+  def eapol(self, type_):
+    e = self.P.eapol(); e.version = self.i('eapolver', 8); e.type = type_; e.bodylen = self.i('bodylen', 16)
+    return L(e, dict(version=e.version, type=type_, bodylen=e.bodylen), 4)
+  def eap(self, code):
+    e = self.P.eap(); e.code = code; e.id = self.i('eapid', 8); e.length = self.i('eaplen', 16)
+    f = dict(code=code, id=e.id, length=e.length); hl = 4
+    if code in (1, 2): e.type = self.i('eaptype', 8); f['type'] = e.type; hl = 5
+    return L(e, f, hl)
+  B.igmp = igmp; B.igmp3 = igmp3; B.vxlan = vxlan; B.gre = gre; B.rip = rip; B.eapol = eapol; B.eap = eap
+_more_builders()
+
+
+def same(ctx, a, b):
+  """equality of a parsed field with the assembled one, as a (symbolic) boolean"""
+  from symx.core import SymBytes
+  if isinstance(a, str) or isinstance(b, str): return a == b
+  if isinstance(a, (list, tuple)) or isinstance(b, (list, tuple)):
+    if not isinstance(a, (list, tuple)) or not isinstance(b, (list, tuple)) or len(a) != len(b): return False
+    return ctx.And(*[same(ctx, x, y) for x, y in zip(a, b)]) if a else True
+  if a is None or b is None: return a is None and b is None
+  if isinstance(a, (bytes, bytearray, SymBytes)) or isinstance(b, (bytes, bytearray, SymBytes)):
+    if not (isinstance(a, (bytes, bytearray, SymBytes)) and isinstance(b, (bytes, bytearray, SymBytes))): return False
+    if len(a) != len(b): return False
+    return ctx.Eq(a, b)
+  if hasattr(a, 'toRaw') or hasattr(b, 'toRaw'):
+    if not (hasattr(a, 'toRaw') and hasattr(b, 'toRaw')): return False
+    return same(ctx, a.toRaw(), b.toRaw())
+  if type(a).__name__ == 'IPAddr6' or type(b).__name__ == 'IPAddr6':
+    if type(a).__name__ != type(b).__name__: return False
+    return same(ctx, a.raw, b.raw)
+  return ctx.Eq(a, b)
+
+
+def assemble(layers, payload):
+  off = 0
+  for i, l in enumerate(layers):
+    l.off = off; off += l.hlen
+    if i + 1 < len(layers): l.obj.set_payload(layers[i + 1].obj)
+    else: l.obj.set_payload(payload)
+  return layers[0].obj
+
+
+def roundtrip(ctx, b, layers, pay, tag='', repack=True):
+  """pack the assembled packet, parse the bytes, compare fields/payload, re-pack; returns the bytes"""
+  from symx.core import SymBytes
+  P = b.P
+  top = assemble(layers, pay)
+  raw = top.pack()
+  ctx.check(tag + 'serialised length is the sum of header lengths and payload', len(raw) == sum(l.hlen for l in layers) + len(pay))
+  if len(raw) != sum(l.hlen for l in layers) + len(pay): return raw
+  p2 = type(top)(raw=raw if isinstance(raw, (bytes, SymBytes)) else bytes(raw))
+  cur = p2
+  for i, l in enumerate(layers):
+    name = type(l.obj).__name__
+    ok = type(cur).__name__ == name and bool(getattr(cur, 'parsed', False))
+    ctx.check(tag + 'layer %d parses as %s' % (i, name), ok)
+    if not ok: return raw
+    for f, v in l.fields.items():
+      got = getattr(cur, f)
+      if f == 'options': got = [(o.type, o.val) for o in got]
+      if f == 'group_records': got = [(r.type, r.address, list(r.source_addresses), r.aux) for r in got]
+      if f == 'entries': got = [(e.address_family, e.route_tag, e.ip, e.netmask, e.next_hop, e.metric) for e in got]
+      if f == 'extension_headers': got = [(type(h).__name__, h.next_header_type, h.raw_body) for h in got]
+      ctx.check(tag + '%s.%s survives' % (name, f), same(ctx, got, v))
+    cur = cur.next
+  if cur is None: cur = b''
+  ctx.check(tag + 'payload survives', isinstance(cur, (bytes, SymBytes)) and len(cur) == len(pay) and (len(pay) == 0 or ctx.Eq(cur, pay)))
+  if repack:
+    raw2 = p2.pack()
+    ctx.check(tag + 're-serialising the parsed packet reproduces the bytes', len(raw2) == len(raw) and ctx.Eq(raw2, raw))
+  ctx.witness('roundtrip')
+  return raw
+
+
+def zeroed(bs, a, n=2):
+  bs = list(bs); bs[a:a + n] = [0] * n; return bs
+
+
+def wire_checks(ctx, b, layers, raw, npay, tag=''):
+  """emitted length fields and Internet checksums, read back from the bytes at their wire offsets and compared with values
+  computed from the emitted bytes themselves (checksum() over them is RFC 1071 by obligation O1)"""
+  pu = b.pu
+  raw = list(raw)
+  total = len(raw)
+  ipl = None; ip6 = None
+  for l in layers:
+    name = type(l.obj).__name__; o = l.off
+    if name == 'ipv4':
+      ipl = l
+      ctx.check(tag + 'ipv4 total-length field == bytes from the IP header to the end', num(raw[o + 2:o + 4]) == total - o)
+      ctx.check(tag + 'ipv4 version/IHL byte', raw[o] == 0x40 + l.hlen // 4)
+      ctx.check(tag + 'ipv4 header checksum field == RFC 1071 over the emitted header', num(raw[o + 10:o + 12]) == pu.checksum(env.tobytes(ctx, zeroed(raw[o:o + l.hlen], 10))))
+    elif name == 'ipv6':
+      ip6 = l
+      ctx.check(tag + 'ipv6 payload-length field == bytes after the fixed header (extension headers included)', num(raw[o + 4:o + 6]) == total - o - 40)
+      ctx.check(tag + 'ipv6 version nibble', (raw[o] >> 4) == 6)
+    elif name in ('udp', 'tcp', 'icmpv6') and ip6 is not None:
+      seg = raw[o:]
+      proto = {'udp': 17, 'tcp': 6, 'icmpv6': 58}[name]; co = {'udp': 6, 'tcp': 16, 'icmpv6': 2}[name]
+      ph = raw[ip6.off + 8:ip6.off + 40] + be(len(seg), 4) + [0, 0, 0, proto]
+      c = pu.checksum(env.tobytes(ctx, ph + zeroed(seg, co)))
+      if name == 'udp':
+        ctx.check(tag + 'udp length field == header + payload', num(raw[o + 4:o + 6]) == total - o)
+        c = ctx.Ite(c == 0, 0xffff, c)
+      if name == 'tcp': ctx.check(tag + 'tcp data offset == header length incl. padded options', (raw[o + 12] >> 4) * 4 == l.hlen)
+      ctx.check(tag + '%s checksum field == RFC 1071 over the IPv6 pseudo-header (upper-layer protocol %d) + segment' % (name, proto), num(raw[o + co:o + co + 2]) == c)
+    elif name == 'udp' and ipl is not None:
+      seg = raw[o:]
+      ctx.check(tag + 'udp length field == header + payload', num(raw[o + 4:o + 6]) == total - o)
+      ph = raw[ipl.off + 12:ipl.off + 20] + [0, 17] + be(len(seg), 2)
+      c = pu.checksum(env.tobytes(ctx, ph + zeroed(seg, 6)))
+      ctx.check(tag + 'udp checksum field == RFC 1071 over pseudo-header + segment (0 sent as 0xffff)', num(raw[o + 6:o + 8]) == ctx.Ite(c == 0, 0xffff, c))
+    elif name == 'tcp' and ipl is not None:
+      seg = raw[o:]
+      ctx.check(tag + 'tcp data offset == header length incl. padded options', (raw[o + 12] >> 4) * 4 == l.hlen)
+      ph = raw[ipl.off + 12:ipl.off + 20] + [0, 6] + be(len(seg), 2)
+      ctx.check(tag + 'tcp checksum field == RFC 1071 over pseudo-header + segment', num(raw[o + 16:o + 18]) == pu.checksum(env.tobytes(ctx, ph + zeroed(seg, 16))))
+    elif name == 'igmp':
+      ctx.check(tag + 'igmp checksum field == RFC 1071 over the IGMP message', num(raw[o + 2:o + 4]) == pu.checksum(env.tobytes(ctx, zeroed(raw[o:], 2))))
+    elif name == 'gre' and getattr(l, 'csum', False):
+      ctx.check(tag + 'gre checksum-present bit set', (raw[o] & 0x80) == 0x80)
+      ctx.check(tag + 'gre checksum field == RFC 1071 over GRE header + payload', num(raw[o + 4:o + 6]) == pu.checksum(env.tobytes(ctx, zeroed(raw[o:], 4))))
+    elif name == 'icmp':
+      seg = raw[o:]
+      ctx.check(tag + 'icmp checksum field == RFC 1071 over the ICMP message', num(raw[o + 2:o + 4]) == pu.checksum(env.tobytes(ctx, zeroed(seg, 2))))
+  ctx.witness('wire')
+
+
+STACKS = {
+  'udp':        lambda b: [b.eth(0x800), b.ipv4(17), b.udp()],
+  'udp_opt':    lambda b: [b.eth(0x800), b.ipv4(17, opt=4), b.udp()],
+  'vlan_udp':   lambda b: [b.eth(0x8100), b.vlan(0x800), b.ipv4(17), b.udp()],
+  'tcp':        lambda b: [b.eth(0x800), b.ipv4(6), b.tcp()],
+  'tcp_mss':    lambda b: [b.eth(0x800), b.ipv4(6), b.tcp(('mss',))],
+  'tcp_mss_ws': lambda b: [b.eth(0x800), b.ipv4(6), b.tcp(('mss', 'ws'))],
+  'tcp_ws':     lambda b: [b.eth(0x800), b.ipv4(6), b.tcp(('ws',))],
+  'tcp_ts':     lambda b: [b.eth(0x800), b.ipv4(6), b.tcp(('ts',))],
+  'tcp_nnts':   lambda b: [b.eth(0x800), b.ipv4(6, opt=8), b.tcp(('nop', 'nop', 'ts'))],
+  'tcp_sack':   lambda b: [b.eth(0x800), b.ipv4(6), b.tcp(('sackperm', 'sack1'))],
+  'tcp_unk':    lambda b: [b.eth(0x800), b.ipv4(6), b.tcp(('unk',))],
+  'icmp_echo':  lambda b: [b.eth(0x800), b.ipv4(1), b.icmp(8, 0), b.echo()],
+  'icmp_reply': lambda b: [b.eth(0x8100), b.vlan(0x800), b.ipv4(1), b.icmp(0), b.echo()],
+  'icmp_unreach': lambda b: [b.eth(0x800), b.ipv4(1), b.icmp(3), b.unreach()],
+  'icmp_texc':  lambda b: [b.eth(0x800), b.ipv4(1), b.icmp(11), b.time_exceeded()],
+  'icmp_other': lambda b: [b.eth(0x800), b.ipv4(1), b.icmp(13)],
+  'ip_frag':    lambda b: [b.eth(0x800), b.ipv4(17, frag=True)],
+  'ip_other':   lambda b: [b.eth(0x800), b.ipv4(89, opt=4)],
+  'udp6':       lambda b: [b.eth(0x86dd), b.ipv6(17), b.udp()],
+  'tcp6':       lambda b: [b.eth(0x86dd), b.ipv6(6), b.tcp(('mss',))],
+  'echo6':      lambda b: [b.eth(0x86dd), b.ipv6(58), b.icmpv6(128, 0), b.echo6()],
+  'echo6r':     lambda b: [b.eth(0x86dd), b.ipv6(58), b.icmpv6(129), b.echo6()],
+  'icmp6_other': lambda b: [b.eth(0x86dd), b.ipv6(58), b.icmpv6(200)],
+  'ip6_other':  lambda b: [b.eth(0x86dd), b.ipv6(99)],
+  'udp6_hop':   lambda b: [b.eth(0x86dd), b.ipv6(17, ('hop',)), b.udp()],
+  'udp6_dest14': lambda b: [b.eth(0x86dd), b.ipv6(17, ('dest:14',)), b.udp()],
+  'tcp6_frag':  lambda b: [b.eth(0x86dd), b.ipv6(6, ('frag',)), b.tcp()],
+  'echo6_hop_route': lambda b: [b.eth(0x86dd), b.ipv6(58, ('hop', 'route')), b.icmpv6(128), b.echo6()],
+  'igmp_query': lambda b: [b.eth(0x800), b.ipv4(2), b.igmp(0x11)],
+  'igmp_report2': lambda b: [b.eth(0x800), b.ipv4(2, opt=4), b.igmp(0x16)],
+  'igmp_leave': lambda b: [b.eth(0x800), b.ipv4(2), b.igmp(0x17)],
+  'igmp3_1':    lambda b: [b.eth(0x800), b.ipv4(2), b.igmp3(1, nsrc=1)],
+  'igmp3_2aux': lambda b: [b.eth(0x800), b.ipv4(2), b.igmp3(2, nsrc=0, aux=4)],
+  'vxlan':      lambda b: [b.eth(0x800), b.ipv4(17), b.udp(dport=4789), b.vxlan(), b.eth(0x9999)],
+  'vxlan_novni_arp': lambda b: [b.eth(0x800), b.ipv4(17), b.udp(dport=4789), b.vxlan(False), b.eth(0x806), b.arp()],
+  'gre':        lambda b: [b.eth(0x800), b.ipv4(47), b.gre(0x9999)],
+  'gre_key_seq': lambda b: [b.eth(0x800), b.ipv4(47), b.gre(0x9999, key=True, seq=True)],
+  'gre_csum':   lambda b: [b.eth(0x800), b.ipv4(47), b.gre(0x9999, csum=True)],
+  'gre_csum_key_ip': lambda b: [b.eth(0x800), b.ipv4(47), b.gre(0x800, key=True, csum=True), b.ipv4(17), b.udp()],
+  'gre_eth':    lambda b: [b.eth(0x800), b.ipv4(47), b.gre(0x6558, seq=True), b.eth(0x9999)],
+  'rip1':       lambda b: [b.eth(0x800), b.ipv4(17), b.udp(dport=520), b.rip(1)],
+  'rip2':       lambda b: [b.eth(0x800), b.ipv4(17), b.udp(sport=520), b.rip(2)],
+  'eap_success': lambda b: [b.eth(0x888e), b.eapol(0), b.eap(3)],
+  'eap_request': lambda b: [b.eth(0x888e), b.eapol(0), b.eap(1)],
+  'eap_response': lambda b: [b.eth(0x888e), b.eapol(0), b.eap(2)],
+  'eapol_start': lambda b: [b.eth(0x888e), b.eapol(1)],
+  'eapol_key':  lambda b: [b.eth(0x888e), b.eapol(3)],
+  'arp':        lambda b: [b.eth(0x806), b.arp()],
+  'vlan_arp':   lambda b: [b.eth(0x8100), b.vlan(0x806), b.arp()],
+  'rarp':       lambda b: [b.eth(0x8035), b.arp()],
+  'mpls':       lambda b: [b.eth(0x8847), b.mpls(1)],
+  'mpls2':      lambda b: [b.eth(0x8848), b.mpls(0), b.mpls(1)],
+  'llc':        lambda b: [b.eth(0x0040), b.llc()],
+  'llc_i':      lambda b: [b.eth(0x0040), b.llc(two_byte_control=True)],
+  'snap':       lambda b: [b.eth(0x0040), b.llc(snap='sym')],
+  'snap_ip':    lambda b: [b.eth(0x0040), b.llc(snap=(b'\0\0\0', 0x800)), b.ipv4(17), b.udp()],
+  'snap_other': lambda b: [b.eth(0x0040), b.llc(snap=(b'\0\0\0', 0x9999))],
+  'vlan_other': lambda b: [b.eth(0x8100), b.vlan(0x9999)],
+  'eth_other':  lambda b: [b.eth(0x9999)],
+}
+
+
+NO_PAYLOAD = ('rip1', 'rip2', 'eap_success', 'eapol_start')
+
+
+def h_stack(ctx, stack, n, repack=True):
+  env.quiet()
+  b = B(ctx); b.extra = n; b.extra_used = False
+  layers = STACKS[stack](b)
+  if b.extra_used or stack in NO_PAYLOAD: n = 0      # the innermost header carries no payload (n was used for its own variable part, if any)
+  pay = ctx.bytes('pay', n)
+  if stack == 'ip_frag': ctx.assume(layers[1].obj.frag != 0)
+  if stack in ('mpls', 'mpls2') and n >= 4: pass
+  raw = roundtrip(ctx, b, layers, pay, repack=repack)
+  if len(raw) == sum(l.hlen for l in layers) + n: wire_checks(ctx, b, layers, raw, n)
+
+
 def obligations(tier):
   maxn = 8 if tier == "quick" else 24
   cases = []
@@ -65,5 +448,18 @@ def obligations(tier):
     for k in sorted(set([0, 1, n // 2 - 1, n // 2, 9, 14])):
       if 0 <= k <= n // 2: cases.append(dict(n=n, mode='skip%d' % k))
   BOUNDS[tier] = dict(checksum_len="0..%d bytes, all contents; start 0..0xffff; skip_word in {0,1,n/2-1,n/2,9,14}" % maxn)
-  return [Obligation('O1_checksum', h_checksum, cases, witnesses=('returned',), mode='int', solver_timeout_ms=120000,
-                     desc='packet_utils.checksum == RFC 1071 reference for all buffers up to the bound (odd and even)')]
+  sc = []
+  for st in STACKS:
+    for n in ((0, 1, 4) if tier == 'quick' else (0, 1, 2, 5, 8)):
+      # re-serialising a parsed GRE packet that carries a checksum makes POX re-verify it (assert checksum(...) == 0): the one's
+      # complement identity behind that is decided by z3 only for <= 1 payload byte (obligation O3); larger ones skip the re-pack step
+      if st.startswith('gre_csum'): sc.append(dict(stack=st, n=n, repack=False))
+      else: sc.append(dict(stack=st, n=n))
+  BOUNDS[tier]['stacks'] = sorted(STACKS); BOUNDS[tier]['payload_lengths'] = sorted({c['n'] for c in sc})
+  return [Obligation('O1_checksum', h_checksum, cases, witnesses=('returned',), mode='int', solver_timeout_ms=300000,
+                     desc='packet_utils.checksum == RFC 1071 reference for all buffers up to the bound (odd and even)'),
+          Obligation('O3_gre_checksum', h_stack, [dict(stack='gre_csum', n=n) for n in ((0,) if tier == 'quick' else (0, 1))], witnesses=('roundtrip', 'wire'),
+                     solver_timeout_ms=300000, max_decisions=20000,
+                     desc="GRE with a computed checksum: POX re-verifies the checksum when re-serialising (one's complement identity; decided over LIA)"),
+          Obligation('O2_stacks', h_stack, sc, witnesses=('roundtrip', 'wire'), max_decisions=20000,
+                     desc='header stacks: assembled fields -> bytes -> parse -> equal fields/payload -> identical bytes; emitted length and checksum fields')]
